@@ -210,8 +210,8 @@ class Fxp():
         self.bias = kwargs.pop('bias', 0 if self.bias is None else self.bias)
         # (NumPy scalars count by their value: the map must not be computed in a narrow NumPy type, and an integer input with
         # a fractional NumPy bias is not an integer value any more)
-        if isinstance(self.scale, np.generic): self.scale = self.scale.item()
-        if isinstance(self.bias, np.generic): self.bias = self.bias.item()
+        if isinstance(self.scale, np.generic) or (isinstance(self.scale, np.ndarray) and self.scale.ndim == 0): self.scale = self.scale.item()
+        if isinstance(self.bias, np.generic) or (isinstance(self.bias, np.ndarray) and self.bias.ndim == 0): self.bias = self.bias.item()
         self.scaled = True if self.scale != 1 or self.bias != 0 else False
 
         # check if val is a raw value
